@@ -466,7 +466,7 @@ def _raw(r, nvdim):
     return a
 
 
-def _ops_expected(arr, mesh):
+def _ops_expected(arr, mesh, true=True):
     """every operation of the property on the CURRENT geometry of ``mesh`` for the values ``arr`` (integer-valued real
     or complex data: the sums are exact in floating point; the cell lengths are the exact rational ones rounded once).
     Returns {name: (call, expected array, magnitude array)}"""
@@ -486,7 +486,7 @@ def _ops_expected(arr, mesh):
         out[f"integrate({d})"] = (lambda f, d=d: f.integrate(d), np.sum(arr, axis=k) * h, np.sum(a, axis=k) * h)
         out[f"mean({d})"] = (lambda f, d=d: f.mean(d), np.sum(arr, axis=k) * h / (h * n[k]), np.sum(a, axis=k) / n[k])
         cum = (np.cumsum(arr, axis=k) - arr / 2.0) * h
-        out[f"integrate({d},cumulative)"] = (lambda f, d=d: f.integrate(d, cumulative=True), cum,
+        out[f"integrate({d},cumulative)"] = (lambda f, d=d: f.integrate(d, cumulative=true), cum,
                                              np.cumsum(a, axis=k) * h)
     return out
 
@@ -590,9 +590,15 @@ def unit_settings(ctx):
     bcs = {"": "", "neumann": "neumann", "dirichlet": "dirichlet", "periodic-first-axis": names[0], "periodic-all-axes": "".join(names)}[bc]
     mesh = df.Mesh(region=df.Region(p1=pmin, p2=pmax, dims=names, units=units), n=n, bc=bcs)
     vals = C.tracer(n, 2, ctx.seed)
-    f = df.Field(mesh, nvdim=2, value=vals)
+    # validity is not part of a sum: every cell counts with the value it holds, whatever the mask says
+    mask = ctx.choose("valid", ["all", "coded-mask", "no-cell"])
+    valid = {"all": True, "coded-mask": C.coded_mask(tuple(n), 3), "no-cell": False}[mask]
+    # the cumulative flag in the representations a true value arrives in (a comparison of arrays gives numpy.bool_)
+    flag = ctx.choose("cumulative-flag", ["True", "numpy.True_", "1"])
+    true = {"True": True, "numpy.True_": np.bool_(True), "1": 1}[flag]
+    f = df.Field(mesh, nvdim=2, value=vals, valid=valid)
     inst = ctx.key()
-    for name, (call, ex, mag) in _ops_expected(np.array(f.array), f.mesh).items():
+    for name, (call, ex, mag) in _ops_expected(np.array(f.array), f.mesh, true).items():
         ctx.step(1, name)
         raised, r = C.raises(call, f)
         ctx.check(2)
